@@ -124,17 +124,11 @@ def assembleMaster (ls : List Line) : Res MasterPlaylist :=
   | .err => .err
   | .panic => .panic
 
-def masterStepItem (st : MState) (it : Res Line) : Res MState :=
-  match it with
-  | .ok l => masterStep st l
-  | .err => .err
-  | .panic => .panic
-
 /-- `MasterPlaylist::try_from(&str)` -/
 def parseMaster (input : Str) : Res MasterPlaylist :=
   match stripTag input pfxM3u with
   | .ok rest =>
-    match foldRes masterStepItem {} (lineItems rest) with
+    match foldRes (liftItem masterStep) {} (lineItems rest) with
     | .ok st => masterFinish st
     | .err => .err
     | .panic => .panic
